@@ -97,7 +97,10 @@ def parseTask (name : String) (j : Json) : Except String TaskDefn := do
   let instJ := (jField? j "inst").getD Json.null
   let insts ← (objPairs instJ).mapM fun (k, v) => do
     let p ← req k.toInt? "instance point"
-    return (p, ← parseInst v)
+    let d ← parseInst v
+    -- the future offset of the instance is computed from its prerequisite atoms (the rule of
+    -- `Dependency.get_prerequisite`), NOT taken from what the implementation recorded ("fut_off", see `recordedOffs`)
+    return (p, { d with futOff := atomFutOff p (d.pre ++ d.sui) })
   let fp := (jOptField j "first_parentless").bind jInt?
   let completion ← match jOptField j "completion" with
     | some c => parseCE c
@@ -235,6 +238,13 @@ def obsJson (g : Graph) (s : State) : Json :=
       | none => Json.null
       | some rows => jOfList (fun (x : Proxy) => Json.arr #[jOfInt x.pt, Json.str x.name, jOfList jOfNat x.flows,
           Json.str x.status.str, Json.bool x.held]) (sortBy proxyLt rows))]
+
+/-- what the implementation recorded per instance (`tdef.max_future_prereq_offset` after constructing a proxy there):
+[(task, point, offset)] - for the judge, the model does not read it -/
+def recordedOffs (gj : Json) : List (String × Int × Option Int) :=
+  (objPairs ((jField? gj "tasks").getD Json.null)).flatMap fun (n, tj) =>
+    (objPairs ((jField? tj "inst").getD Json.null)).filterMap fun (k, v) =>
+      k.toInt?.map fun p => (n, p, (jOptField v "fut_off").bind jInt?)
 
 structure Case where
   graph : Graph
